@@ -4,7 +4,7 @@
    interpretations on which the original and the re-read expression are evaluated with Core/Eval. *)
 From Coq Require Import List ZArith NArith QArith Qcanon Bool String Ascii.
 Import ListNotations.
-Require Import UPV.Core.Expr UPV.Core.Eval UPV.Core.Interp UPV.Model.PddlExpr.
+Require Import UPV.Core.Expr UPV.Core.Eval UPV.Core.Interp UPV.Model.PddlExpr UPV.Model.PddlLex.
 Local Open Scope string_scope.
 
 Record case := {
@@ -14,8 +14,10 @@ Record case := {
   c_var : list (string * N);          (* names without "?" *)
   c_ty : list (string * N);
   c_e : option expr;                  (* the expression given to the converter (None: hand-written text, parser only) *)
-  c_text : option sexp;               (* the converter's output; None = it raised (or warned: inexact real) *)
-  c_parsed : option expr;             (* _parse_exp of that text; None = it raised *)
+  c_text : option string;             (* the converter's output, verbatim; None = it raised (or warned: inexact real) *)
+  c_lexed : option sexp;              (* what the REAL grammar (domain grammar, precondition slot) returns for the text
+                                         after replace("\t"," ").lower(); None = parse error *)
+  c_parsed : option expr;             (* _parse_exp of that result; None = it raised *)
   c_interps : list finterp
 }.
 
@@ -50,16 +52,26 @@ Definition osexp_eqb (a b : option sexp) : bool :=
 Definition oexpr_eqb (a b : option expr) : bool :=
   match a, b with Some x, Some y => expr_eqb x y | None, None => true | _, _ => false end.
 
-(* bit 0 (1): the model's [print] differs from the converter's text
-   bit 1 (2): the model's [parse] of the converter's text differs from the reader's result
+Definition ostring_eqb (a b : option string) : bool :=
+  match a, b with Some x, Some y => String.eqb x y | None, None => true | _, _ => false end.
+
+Definition model_lex (c : case) : option sexp :=
+  match c_text c with Some t => lex_group (prep t) | None => None end.
+
+(* bit 0 (1): the model's [print_text] differs from the converter's text (character by character)
+   bit 1 (2): the model's [parse] of the model's [lex_group (prep text)] differs from the reader's result
    bit 2 (4): the expression is in the fragment but the REAL round trip did not return [norm e]
    bit 3 (8): on one of the interpretations the re-read expression evaluates differently from the original
-              (original defined)  -- the round trip changed the meaning *)
+              (original defined)  -- the round trip changed the meaning
+   bit 4 (16): the model's [lex_group (prep text)] differs from what the real grammar returned
+   bit 5 (32): internal consistency: [lex (print_text e)] is not [print e] *)
 Definition code (c : case) : N :=
   let nm := naming_of c in
   let E := env_of c in
-  let b0 := match c_e c with Some e => negb (osexp_eqb (print nm e) (c_text c)) | None => false end in
-  let b1 := match c_text c with Some s => negb (oexpr_eqb (parse E [] s) (c_parsed c)) | None => false end in
+  let b0 := match c_e c with Some e => negb (ostring_eqb (print_text nm e) (c_text c)) | None => false end in
+  let b1 := match c_text c with
+            | Some _ => negb (oexpr_eqb (match model_lex c with Some s => parse E [] s | None => None end) (c_parsed c))
+            | None => false end in
   let b2 := match c_e c with
             | Some e => pddl_ok [] e && negb (oexpr_eqb (Some (norm e)) (c_parsed c))
             | None => false end in
@@ -69,10 +81,18 @@ Definition code (c : case) : N :=
                                   | Some v => negb (ovalue_eqb (Some v) (eval false e' (to_interp F)))
                                   | None => false end) (c_interps c)
             | _, _ => false end in
-  ((if b0 then 1 else 0) + (if b1 then 2 else 0) + (if b2 then 4 else 0) + (if b3 then 8 else 0))%N.
+  let b4 := match c_text c with Some _ => negb (osexp_eqb (model_lex c) (c_lexed c)) | None => false end in
+  let b5 := match c_e c with
+            | Some e => match print_text nm e with
+                        | Some t => negb (osexp_eqb (lex (prep t)) (print nm e))
+                        | None => match print nm e with Some _ => true | None => false end
+                        end
+            | None => false end in
+  ((if b0 then 1 else 0) + (if b1 then 2 else 0) + (if b2 then 4 else 0) + (if b3 then 8 else 0)
+   + (if b4 then 16 else 0) + (if b5 then 32 else 0))%N.
 
 (* what the model says, for the replay files *)
-Definition model_print (c : case) : option sexp :=
-  match c_e c with Some e => print (naming_of c) e | None => None end.
+Definition model_print (c : case) : option string :=
+  match c_e c with Some e => print_text (naming_of c) e | None => None end.
 Definition model_parse (c : case) : option expr :=
-  match c_text c with Some s => parse (env_of c) [] s | None => None end.
+  match model_lex c with Some s => parse (env_of c) [] s | None => None end.
